@@ -53,7 +53,12 @@ class _Incarnation:
 
 
 class ExpRun:
-    """Interpreter for the experimental (stateful) interface."""
+    """Interpreter for the experimental (stateful) interface.
+
+    The logical run is a *timeline* of phases [("warmup", n) | ("sample", n), ...]; adjacent sample phases merge
+    (N then M == N+M), warm-up phases never do (their tuning schedule depends on the call).  A checkpoint stores the
+    timeline it belongs to; a restart rewinds the timeline to it.  Every sampler object ("incarnation") is compared
+    with an uninterrupted reference run of *its own* timeline on the same tape."""
 
     def __init__(self, ctx, case):
         self.ctx, self.case = ctx, case
@@ -65,10 +70,28 @@ class ExpRun:
         self.setup_seed = core.derive_seed("setup", case["seed"], 0)
         self.incs = []
         self.armed_cb_ckpt = None           # (countdown, path)
-        self.ckpts = {}                     # path -> dict(tape, pos, prefix)
+        self.ckpts = {}                     # path -> dict(tape, timeline)
         self.last_ckpt = None
-        self.dead = False
         self.tape0 = None
+        self.timeline = []
+        self.cur_op_done = 0
+        self._ref_cache = {}
+
+    # ---- timeline helpers ----------------------------------------------------------------
+    @staticmethod
+    def _tl_add(tl, phase, n):
+        tl = [list(x) for x in tl]
+        if n <= 0:
+            return tl
+        if phase == "sample" and tl and tl[-1][0] == "sample":
+            tl[-1][1] += n
+        else:
+            tl.append([phase, n])
+        return tl
+
+    @staticmethod
+    def _tl_total(tl):
+        return sum(n for _, n in tl)
 
     # ---- construction -----------------------------------------------------------------
     def _callback_for(self, inc_box):
@@ -78,6 +101,7 @@ class ExpRun:
             inc = inc_box[0]
             inc.cb.append((index, sample, as_vec(sample)))
             ctx.log("callback", index, as_vec(sample))
+            self.cur_op_done += 1
             # delimit probe traces per transition
             for p in inc.probes:
                 inc.cur_evals.extend([a[0] for a, _, _ in p.trace])
@@ -89,24 +113,20 @@ class ExpRun:
                 if n <= 0:
                     self.armed_cb_ckpt = None
                     ctx.fault("checkpoint_in_callback")
-                    self._save(inc, path, pos=self._pos_in_callback(inc))
+                    # state inside the callback = state after the transitions of the current sample() call so far
+                    self._save(inc, path, self._tl_add(self.timeline, "sample", self.cur_op_done))
                 else:
                     self.armed_cb_ckpt = (n - 1, path)
         return cb
 
-    def _pos_in_callback(self, inc):
-        # state inside the callback = state after (#callbacks so far) transitions of this object
-        done = len(inc.cb)
-        return inc.start_pos + done - (self.W if inc.with_warmup else 0)
-
-    def _new(self, start_pos, with_warmup, explicit_init):
+    def _new(self, start_total, first, explicit_init):
         box = [None]
         cb = self._callback_for(box) if self.sc.get("cb", True) else None
         with core.setup_stream(self.setup_seed):
             s, info = zoo.build_exp_sampler(self.ctx, self.sc, callback=cb)
             if explicit_init:
                 s.initialize()
-        inc = _Incarnation(s, info, start_pos, with_warmup)
+        inc = _Incarnation(s, info, start_total, first)
         inc.probes = [p for p in (info.get("logd"), info.get("forward")) if p is not None]
         for p in inc.probes:
             p.trace = []
@@ -116,45 +136,54 @@ class ExpRun:
         return inc
 
     # ---- durable state ----------------------------------------------------------------
-    def _save(self, inc, path, pos):
+    def _save(self, inc, path, timeline):
         inc.s.save_checkpoint(path)
-        self.ckpts[path] = {"tape": np.random.get_state(), "pos": pos}
+        self.ckpts[path] = {"tape": np.random.get_state(), "timeline": [list(x) for x in timeline], "saved_by": inc}
         self.last_ckpt = path
-        self.ctx.log("checkpoint", path, pos)
-        if pos == 0:
+        tot = self._tl_total(timeline)
+        self.ctx.log("checkpoint", path, tot)
+        if tot == self.W:
             self.ctx.hit("checkpoint_at_0")
+        if tot == 0:
+            self.ctx.hit("checkpoint_before_any_transition")
 
     # ---- the two runs -------------------------------------------------------------------
-    def reference(self, P):
+    def reference(self, timeline):
+        key = tuple((p, n) for p, n in timeline)
+        if key in self._ref_cache:
+            return self._ref_cache[key]
+        saved = np.random.get_state()
         core.reset_volatile_globals()
         np.random.set_state(self.tape0)
-        sc = dict(self.sc)
-        box = [None]
-        log = []
-        cb = (lambda x, i: log.append((i, x, as_vec(x)))) if self.sc.get("cb", True) else None
+        cb = (lambda x, i: None) if self.sc.get("cb", True) else None
         with core.setup_stream(self.setup_seed):
-            s, info = zoo.build_exp_sampler(core.Ctx(0), sc, callback=cb)   # private ctx: no logging into the run
+            s, info = zoo.build_exp_sampler(core.Ctx(0), dict(self.sc), callback=cb)   # private ctx: no logging into the run
             if not self.sc.get("lazy_init"):
                 s.initialize()
-        if self.W:
-            s.warmup(self.W)
-        if P:
-            s.sample(P)
+        for phase, n in timeline:
+            getattr(s, phase)(n)
         R = chain_of(s)
         acc = [np.array(a, float) for a in s.get_history()["history"]["_acc"]] if s._is_initialized else [1]
-        return R, acc, log
+        np.random.set_state(saved)
+        self._ref_cache[key] = (R, acc)
+        return R, acc
+
+    def _do_phase(self, inc, phase, n):
+        self.cur_op_done = 0
+        if phase == "warmup" and not inc.with_warmup:
+            inc.warmup_after_restore = True
+        getattr(inc.s, phase)(n)
+        inc.n_steps += n
+        self.timeline = self._tl_add(self.timeline, phase, n)
 
     def run(self):
         ctx, sc = self.ctx, self.sc
         self.tape0 = np.random.get_state()
         core.reset_volatile_globals()
         inc = self._new(0, True, not sc.get("lazy_init"))
-        pos = 0
-        maxpos = 0
         if self.W:
-            inc.s.warmup(self.W)
-            inc.n_steps += self.W
-        segs = []     # finished incarnations: (start_pos, with_warmup, chain, acc, inc)
+            self._do_phase(inc, "warmup", self.W)
+        segs = []     # finished incarnations: (inc, timeline at finish, chain, acc)
         pending_fs = None
         stop = False
         for op in self.case["ops"]:
@@ -162,21 +191,21 @@ class ExpRun:
                 break
             o = op["op"]
             ctx.log("op", o, {k: v for k, v in op.items() if k != "op"})
-            if o == "sample":
+            if o in ("sample", "warmup"):
                 n = int(op["n"])
                 try:
-                    inc.s.sample(n)
-                    inc.n_steps += n
-                    pos += n
+                    self._do_phase(inc, o, n)
                     if len(self.case["ops"]) > 1:
                         ctx.nontrivial = True
+                    if o == "warmup":
+                        ctx.hit("warmup_in_mid_run")
                 except core.SimCrash:
                     # crash at an arbitrary instant inside a transition -> object is gone
-                    inc, pos = self._restart(inc, segs, "new_process" if ctx.sched.random() < .5 else "same_process",
-                                             pos, crashed_inside=True)
+                    inc = self._restart(inc, segs, "new_process" if ctx.sched.random() < .5 else "same_process",
+                                        crashed_inside=True)
                 for p in inc.probes:
                     p.fault_plan.clear()          # an armed crash that did not fire is disarmed
-                maxpos = max(maxpos, pos)
+                self.armed_cb_ckpt = None
             elif o == "checkpoint":
                 path = op.get("path", "ck_a")
                 if pending_fs is not None:
@@ -184,7 +213,7 @@ class ExpRun:
                     pending_fs = None
                     self.fs.arm(site, kind)
                     try:
-                        self._save(inc, path, pos)
+                        self._save(inc, path, self.timeline)
                         ctx.violate(PROP, "fs_fault_swallowed", {"kind": self.kind, "iface": "exp"},
                                     site=site, errno=kind)
                     except core.SimFSError:
@@ -193,9 +222,7 @@ class ExpRun:
                             self.last_ckpt = None
                         self.fs.durable.pop(path, None)      # whatever is there is not a checkpoint
                     self.fs.plan.clear()
-                self._save(inc, path, pos)
-                if pos == 0 and not self.W:
-                    ctx.hit("checkpoint_before_any_transition")
+                self._save(inc, path, self.timeline)
             elif o == "fs_fault":
                 pending_fs = (op["at"], op["kind"])
             elif o == "checkpoint_in_callback":
@@ -206,7 +233,7 @@ class ExpRun:
                     p = inc.probes[0]
                     p.fault_plan[p.calls + 1 + int(op["j"])] = "raise"
             elif o == "crash_restart":
-                inc, pos = self._restart(inc, segs, op.get("mode", "same_process"), pos)
+                inc = self._restart(inc, segs, op.get("mode", "same_process"))
             elif o == "benign":
                 self._benign(inc, op["what"])
             elif o == "reinit_check":
@@ -215,19 +242,17 @@ class ExpRun:
                 stop = True
         if not stop:
             self._finish(inc, segs)
-        # ---------------- reference and oracles
-        R, Racc, Rlog = self.reference(maxpos)
-        self._oracles(segs, R, Racc, maxpos)
+        self._oracles(segs)
 
     def _finish(self, inc, segs):
         chain = chain_of(inc.s)
         acc = [np.array(a, float) for a in inc.s.get_history()["history"]["_acc"]] if inc.s._is_initialized else [1]
         inc.cb = list(inc.cb)                 # freeze: later use of the object is not part of this record
         inc.trans_evals = list(inc.trans_evals)
-        segs.append((inc.start_pos, inc.with_warmup, chain, acc, inc))
+        segs.append((inc, [list(x) for x in self.timeline], chain, acc))
         inc.s.callback = None
 
-    def _restart(self, inc, segs, mode, pos, crashed_inside=False):
+    def _restart(self, inc, segs, mode, crashed_inside=False):
         ctx = self.ctx
         if self.last_ckpt is None:
             if crashed_inside:
@@ -236,13 +261,13 @@ class ExpRun:
                 self.fs.crash()
                 core.reset_volatile_globals()
                 np.random.set_state(self.tape0)
+                self.timeline = []
                 new = self._new(0, True, not self.sc.get("lazy_init"))
                 if self.W:
-                    new.s.warmup(self.W)
-                    new.n_steps += self.W
-                return new, 0
+                    self._do_phase(new, "warmup", self.W)
+                return new
             ctx.count("crash_skipped_no_checkpoint")
-            return inc, pos
+            return inc
         if not crashed_inside:
             self._finish(inc, segs)        # in-flight transitions are lost but were valid transitions
         ctx.fault("crash_restart_" + mode + ("_inside_transition" if crashed_inside else ""))
@@ -250,8 +275,11 @@ class ExpRun:
         ck = self.ckpts[self.last_ckpt]
         if mode == "new_process":
             core.reset_volatile_globals()
-        new = self._new(ck["pos"], False, False)
+        self.timeline = [list(x) for x in ck["timeline"]]
+        tot = self._tl_total(self.timeline)
+        new = self._new(tot, False, False)
         new.mode = mode
+        new.parent = ck["saved_by"]
         with core.setup_stream(self.setup_seed + 1):
             new.s.load_checkpoint(self.last_ckpt)
         np.random.set_state(ck["tape"])
@@ -260,9 +288,9 @@ class ExpRun:
             ctx.hit("restart_of_sampler_whose_init_draws")
         if isinstance(self.sc["knobs"].get("scale"), list):
             ctx.hit("restore_array_scale")
-        if ck["pos"] == 0:
+        if tot == self.W:
             ctx.hit("restart_from_position_0")
-        return new, ck["pos"]
+        return new
 
     def _benign(self, inc, what):
         s = inc.s
@@ -288,19 +316,43 @@ class ExpRun:
     # ---- oracles -------------------------------------------------------------------------
     def _sig(self, **k):
         d = {"engine": "chain", "iface": "exp", "kind": self.kind}
+        if getattr(self, "_cur_inc", None) is not None and self._descends_from_diverged(self._cur_inc):
+            # restored from a checkpoint written by an object that had already diverged (reported there)
+            d["descends_from_diverged"] = True
         d.update(k)
         return d
 
-    def _oracles(self, segs, R, Racc, maxpos):
-        ctx, W = self.ctx, self.W
-        for (start, with_w, chain, acc, inc) in segs:
-            off = start + (0 if with_w else W)       # column offset into R
+    def _descends_from_diverged(self, inc):
+        p = getattr(inc, "parent", None)
+        while p is not None:
+            if getattr(p, "diverged", False):
+                return True
+            p = getattr(p, "parent", None)
+        return False
+
+    def _oracles(self, segs):
+        ctx = self.ctx
+        for (inc, timeline, chain, acc) in segs:
+            self._cur_inc = inc
+            nviol = len(ctx.violations)
+            self._oracles_one(inc, timeline, chain, acc)
+            if len(ctx.violations) > nviol:
+                inc.diverged = True
+        self._cur_inc = None
+
+    def _oracles_one(self, inc, timeline, chain, acc):
+        ctx = self.ctx
+        if True:
+            R, Racc = self.reference(timeline)
+            with_w = inc.with_warmup            # True for an object that lived from the very start
+            off = inc.start_pos                 # transitions of the timeline that precede this object
+            start = off
             n = chain.shape[1]
             ctx.count("transitions", n)
             # 3 length
             if n != inc.n_steps:
                 ctx.violate(PROP, "length", self._sig(), got=n, executed=inc.n_steps)
-                continue
+                return
             ref = R[:, off:off + n]
             # 1/2 continuity + resume
             if n and not (ref.shape == chain.shape and np.array_equal(ref, chain, equal_nan=True)):
@@ -308,9 +360,12 @@ class ExpRun:
                 extra = {}
                 if self.kind == "RegularizedLinearRTO":
                     extra = {"stepsize": str(self.sc["knobs"].get("stepsize")), "mode": inc.mode}
+                if self.kind == "NUTS" and not with_w:
+                    extra = {"warmup_after_restore": bool(getattr(inc, "warmup_after_restore", False)),
+                             "step_size_searched": self.sc["knobs"].get("step_size") is None}
                 ctx.violate(PROP, "resume" if not with_w else "continuity",
                             self._sig(restarted=not with_w, **extra),
-                            start_pos=start, first_bad_column=first,
+                            start_pos=start, first_bad_column=first, timeline=timeline,
                             maxdiff=float(np.max(np.abs(ref - chain))) if ref.shape == chain.shape else None)
             # acceptance history
             racc = Racc[1 + off: 1 + off + n]
@@ -406,6 +461,8 @@ def gen_exp_case(r, tier):
             ops.append({"op": "crash_in_step", "j": r.randint(0, 3 * n)})
         ops.append({"op": "sample", "n": n})
         left -= n
+        if r.random() < 0.12:
+            ops.append({"op": "warmup", "n": r.randint(1, 8)})     # tuning resumed in the middle of the run
         y = r.random()
         if y < 0.45:
             if r.random() < 0.2:
